@@ -11,3 +11,5 @@ open GN.Props.C12
 #print axioms set_eq_spec
 #print axioms sort_spec
 #print axioms parse_serialize_id
+#print axioms hex_kernels_as_in_source
+#print axioms sort_order_is_code_units
